@@ -724,6 +724,7 @@ func TestVerifC18(t *testing.T) {
 	// ---- level 2: re-route and node dialer ------------------------------------------
 	verifC18Level2(m, env, classes, dsts, ports)
 
+	verifC18ViaSniffer(m, cp)
 	verifC18KnowledgeHistories(m)
 	m.Require("knowledge_probe_inside_original_ttl", "knowledge_probe_after_every_original_ttl", "knowledge_sibling_removed")
 	m.Require("table_expect_dst", "table_expect_name", "table_expect_literal", "table_expect_either", "table_expect_name-anyport", "table_expect_literal-anyport",
